@@ -12,7 +12,7 @@ for l in open(os.path.join(V, 'KNOWN_FINDINGS.txt')):
 p = os.path.join(V, 'DESIGN.md')
 s = open(p).read()
 i = s.index('| property | commit | what failed |')
-j = s.index('**Known findings (4;')
+j = re.search(r'\*\*Known findings \(\d+;', s).start()
 s = s[:i] + '| property | commit | what failed |\n|---|---|---|\n' + '\n'.join(rows) + '\n\n' + s[j:]
 s = re.sub(r'\*\*Repaired \(\d+ `fix:` commits', '**Repaired (%d `fix:` commits' % len(rows), s)
 open(p, 'w').write(s)
